@@ -50,6 +50,14 @@ def _same_obligation(a, b):
     return True
 
 
+def _witness(ev):
+    """the plan as its author writes it; a bare case is the asm call without the leading name (implied asm)"""
+    s = node_text(ev["plan"])
+    if ev.get("bare") and s.startswith("[asm"):
+        s = "[" + s[4:].lstrip()
+    return s
+
+
 def fn_names(ctx):
     pb = ctx.build("asmx")
     p = ctx.run([pb, "fns"])
@@ -244,7 +252,7 @@ def judge_once(ctx, cases):
                   "str": "=run1" if ev["str"].get("eq") else ev["str"].get("r"), "simp": "=run1" if ev["simp"].get("eq") else ev["simp"].get("r"),
                   "str_m": ev["str"].get("m"), "text_before": ev.get("text0"), "text_after": ev.get("text1"),
                   "second_root": [ev["alt_same"].get("r"), "=same-object" if ev["alt_fresh"].get("eq") else ev["alt_fresh"].get("r")]}
-        recs.append({"api": "asm.Plan.Execute", "kind": b["kind"], "locus": locus_str(b), "witness": node_text(ev["plan"]),
+        recs.append({"api": "asm.Plan.Execute", "kind": b["kind"], "locus": locus_str(b), "witness": _witness(ev),
                      "case": case, "detail": detail, "depth": b["depth"], "plan": ev["plan"]})
     return recs, res["n"]
 
